@@ -8,7 +8,10 @@ under which output depends only on input and options -
   R12.2 no address-valued data reaches an output or a hash,
   R12.3 no hash-table iteration outside the table implementation,
   R12.4 numbering sources are static counters changed only by ++,
-  R12.5 (lint) chibicc's own sources avoid constructs that known findings say chibicc miscompiles.
+  R12.5 (lint) chibicc's own sources avoid constructs that known findings say chibicc miscompiles,
+  R12.16 the launcher decides on the status of the child it started, whatever other children the process owns (C14 R14.4 re-used),
+  R12.17 (lint) chibicc's own sources do not depend on the order of evaluation of operands / arguments (left-first in the host compiler,
+         right-first in chibicc): whole-program effect summaries (may end the run / output / input, static objects written and read) over the call graph.
 Every scanner is also run over /verif/canaries/c12_nondeterminism.c on every run; a scanner that
 no longer flags its canary makes the check ANALYSIS-BROKEN.
 """
@@ -442,6 +445,318 @@ def scan_impl_defined(u):
                        'chibicc gives it int, so a difference below zero is 4294967295 in the reference build and -1 in the self-compiled compiler (C11 6.7.2.2p4: implementation-defined)' % (fname, n.src(), hit))
 
 
+# ---- R12.17 order of evaluation (C11 6.5p2-3, 6.5.2.2p10, 6.5.16p3): the operands of an operator and the arguments of a call are
+# unsequenced / indeterminately sequenced.  The host compiler evaluates the left operand first, chibicc the right one: wherever the order
+# is observable in chibicc's own sources, the reference build and the self-compiled compiler behave differently.
+_OPNAME = {'+': 'add', '-': 'sub', '*': 'mul', '/': 'div', '%': 'rem', '&': 'and', '|': 'or', '^': 'xor', '<<': 'shl', '>>': 'shr',
+           '==': 'eq', '!=': 'ne', '<': 'lt', '<=': 'le', '>': 'gt', '>=': 'ge', '=': 'assign',
+           '+=': 'add-assign', '-=': 'sub-assign', '*=': 'mul-assign', '/=': 'div-assign', '%=': 'rem-assign', '&=': 'and-assign', '|=': 'or-assign',
+           '^=': 'xor-assign', '<<=': 'shl-assign', '>>=': 'shr-assign'}
+_SEQUENCED_OPS = ('&&', '||', ',')
+EXIT_PRIMS = ('exit', '_exit', '_Exit', 'quick_exit', 'abort')
+OUTPUT_PRIMS = OUTPUT_FNS + ('vfprintf', 'vprintf', 'vdprintf', 'perror', 'fclose', 'fflush')
+INPUT_PRIMS = ('fgetc', 'getc', 'getchar', 'fread', 'fgets', 'getline', 'getdelim', 'read', 'fscanf', 'scanf', 'ungetc', 'fseek', 'rewind')
+
+
+def _internal_error_call(call):
+    """expansion of unreachable(): error("internal error at %s:%d", ...) - an internal error (C13), not an answer to the input"""
+    if call.callee() != 'error':
+        return False
+    a = call.args()
+    return bool(a) and (a[0].str_value() or '').startswith('internal error')
+
+
+class Effects:
+    """whole-program summaries over the resolved call graph: for every defined function
+         act   - kinds of observable action reachable from it ('exit': ends the process, e.g. through error_tok; 'output'; 'input')
+         mods  - static-storage objects it (transitively) assigns directly (the variable itself, a member or an element of it, or its address passed on)
+         refs  - static-storage objects it (transitively) reads
+       a call through a pointer has every effect."""
+
+    def __init__(self, P, cg):
+        self.cg = cg
+        self.edges = {}
+        for callee, sites in cg.sites.items():
+            for (u, caller, call) in sites:
+                if _internal_error_call(call):
+                    continue
+                self.edges.setdefault(caller, set()).add(callee)
+        for f, lst in cg.refs.items():
+            for (u, user, ref) in lst:
+                self.edges.setdefault(user, set()).add(f)
+        self.indirect = set()
+        self.dmods, self.drefs = {}, {}
+        for fname, lst in cg.defs.items():
+            for (u, fd) in lst:
+                loc = _local_ids(fd)
+                m, r = _static_mod_ref(u, fname, fd, loc)
+                self.dmods.setdefault(fname, set()).update(m)
+                self.drefs.setdefault(fname, set()).update(r)
+                if any(c.kind == 'CallExpr' and c.callee() is None for c in fd.walk()):
+                    self.indirect.add(fname)
+        self.act = {}
+        for p in EXIT_PRIMS:
+            self.act[p] = {'exit'}
+        for p in OUTPUT_PRIMS:
+            self.act[p] = {'output'}
+        for p in INPUT_PRIMS:
+            self.act[p] = {'input'}
+        self.mods = {f: set(s) for f, s in self.dmods.items()}
+        self.refs = {f: set(s) for f, s in self.drefs.items()}
+        for f in self.indirect:
+            self.act.setdefault(f, set()).update(('exit', 'output', 'input'))
+            self.mods.setdefault(f, set()).add('*')
+        changed = True
+        while changed:
+            changed = False
+            for f, gs in self.edges.items():
+                for g in gs:
+                    for tab in (self.act, self.mods, self.refs):
+                        src = tab.get(g)
+                        if src:
+                            dst = tab.setdefault(f, set())
+                            if not src <= dst:
+                                dst |= src; changed = True
+
+    def why(self, f, kind):
+        """one call chain from f to a primitive of that kind (for the message)"""
+        prims = EXIT_PRIMS if kind == 'exit' else (OUTPUT_PRIMS if kind == 'output' else INPUT_PRIMS)
+        prev = {f: None}
+        q = [f]
+        while q:
+            x = q.pop(0)
+            if x in prims:
+                out = []
+                while x is not None:
+                    out.append(x); x = prev[x]
+                return ' -> '.join(out[::-1])
+            for g in sorted(self.edges.get(x, ())):
+                if g not in prev:
+                    prev[g] = x; q.append(g)
+        return f
+
+
+def _local_ids(fd):
+    return set(n.id for n in fd.walk() if n.kind in ('VarDecl', 'ParmVarDecl') and n.d.get('storageClass') not in ('static', 'extern'))
+
+
+def _static_key(u, fname, ref, loc):
+    """key of the static-storage object a DeclRefExpr names, None for locals / functions / enumerators"""
+    if ref is None or ref.kind != 'DeclRefExpr' or ref.ref_kind != 'VarDecl' or ref.ref_id in loc:
+        return None
+    if ref.ref_id in _local_static_ids(u, fname):
+        return '%s/%s/%s' % (u.name, fname, ref.ref_name)
+    g = u.globals.get(ref.ref_name)
+    if g is not None and g.d.get('storageClass') == 'static':
+        return '%s/%s' % (u.name, ref.ref_name)
+    return ref.ref_name
+
+
+_LS_MEMO = {}
+
+
+def _local_static_ids(u, fname):
+    k = (id(u), fname)
+    if k not in _LS_MEMO:
+        fd = u.functions.get(fname)
+        _LS_MEMO[k] = set(n.id for n in fd.walk() if n.kind == 'VarDecl' and n.d.get('storageClass') == 'static') if fd is not None else set()
+    return _LS_MEMO[k]
+
+
+def _lvalue_root(n):
+    """the variable an lvalue expression is a part of (x, x.m, x[i] for an array x), None when it goes through a pointer"""
+    while True:
+        if n.kind == 'ParenExpr' and n.inner:
+            n = n.inner[0]
+        elif n.kind == 'MemberExpr' and not n.d.get('isArrow') and n.inner:
+            n = n.inner[0]
+        elif n.kind == 'ArraySubscriptExpr' and n.inner:
+            b = n.inner[0]
+            if b.kind == 'ImplicitCastExpr' and b.cast_kind == 'ArrayToPointerDecay' and b.inner:
+                n = b.inner[0]
+            else:
+                return None
+        elif n.kind == 'DeclRefExpr':
+            return n
+        else:
+            return None
+
+
+def _is_read(ref, top):
+    """the DeclRefExpr is read (an lvalue-to-rvalue conversion applies to it or to a member / element of it) inside `top`"""
+    cur, par = ref, ref.parent
+    while par is not None:
+        if par.kind == 'ImplicitCastExpr' and par.cast_kind == 'LValueToRValue':
+            return True
+        if par.kind == 'ImplicitCastExpr' and par.cast_kind == 'ArrayToPointerDecay':
+            pp = par.parent
+            if pp is not None and pp.kind == 'ArraySubscriptExpr' and pp.inner and pp.inner[0] is par:
+                cur, par = par, pp
+                continue
+            return True         # the array is handed on as a pointer: whoever receives it reads it
+        if par.kind == 'ParenExpr' or (par.kind == 'MemberExpr' and not par.d.get('isArrow')) or \
+                (par.kind == 'ArraySubscriptExpr' and par.inner and par.inner[0] is cur):
+            if par is top:
+                return False
+            cur, par = par, par.parent
+            continue
+        if par.kind == 'CompoundAssignOperator' and par.inner and par.inner[0] is cur:
+            return True
+        if par.kind == 'UnaryOperator' and par.opcode in ('++', '--'):
+            return True
+        return False
+    return False
+
+
+def _writes_in(e):
+    """[(DeclRefExpr of the variable, how)] modified inside expression e: assigned, stepped, or its address handed to a call made inside e"""
+    out = []
+    for n in e.walk():
+        if (n.kind == 'BinaryOperator' and n.opcode == '=') or n.kind == 'CompoundAssignOperator' or (n.kind == 'UnaryOperator' and n.opcode in ('++', '--')):
+            r = _lvalue_root(n.inner[0]) if n.inner else None
+            if r is not None:
+                out.append((r, 'assigned'))
+        elif n.kind == 'UnaryOperator' and n.opcode == '&' and n.inner:
+            r = _lvalue_root(n.inner[0])
+            if r is not None and r.ref_kind in ('VarDecl', 'ParmVarDecl'):
+                c = n.enclosing('CallExpr')
+                if c is not None and (c is e or any(a is e for a in c.ancestors())):
+                    out.append((r, 'address-passed-to-%s' % (c.callee() or 'a-call')))
+    return out
+
+
+def _static_mod_ref(u, fname, fd, loc):
+    mods, refs = set(), set()
+    body = fd
+    for (r, how) in _writes_in(body):
+        k = _static_key(u, fname, r, loc)
+        if k:
+            mods.add(k)
+    for n in body.walk():
+        if n.kind == 'UnaryOperator' and n.opcode == '&' and n.inner:
+            r = _lvalue_root(n.inner[0])
+            k = _static_key(u, fname, r, loc) if r is not None else None
+            if k:
+                mods.add(k)         # the address escapes: whoever holds it may write
+        if n.kind == 'DeclRefExpr':
+            k = _static_key(u, fname, n, loc)
+            if k and _is_read(n, None):
+                refs.add(k)
+    return mods, refs
+
+
+def _operand_effects(E, u, fname, e, loc):
+    """effects of evaluating expression e: observable actions / static objects written / read (through the calls in it and directly),
+    locals written / read"""
+    act, mods, refs = {}, {}, set()
+    lmods, lrefs = {}, set()
+    ncalls = 0
+    for c in e.walk():
+        if c.kind != 'CallExpr':
+            continue
+        ncalls += 1
+        cal = c.callee()
+        if cal is None:
+            for k in ('exit', 'output', 'input'):
+                act.setdefault(k, 'a call through a pointer')
+            mods.setdefault('*', 'a call through a pointer')
+            continue
+        for k in E.act.get(cal, ()):
+            act.setdefault(k, cal)
+        for k in E.mods.get(cal, ()):
+            mods.setdefault(k, cal)
+        refs |= E.refs.get(cal, set())
+    for (r, how) in _writes_in(e):
+        k = _static_key(u, fname, r, loc)
+        if k:
+            mods.setdefault(k, how)
+        elif r.ref_id in loc:
+            lmods.setdefault(r.ref_id, (r.ref_name, how))
+    for n in e.walk():
+        if n.kind == 'DeclRefExpr' and n.ref_kind in ('VarDecl', 'ParmVarDecl'):
+            rd = _is_read(n, None)
+            k = _static_key(u, fname, n, loc)
+            if k and rd:
+                refs.add(k)
+            elif n.ref_id in loc and rd:
+                lrefs.add(n.ref_id)
+    return {'act': act, 'mods': mods, 'refs': refs, 'lmods': lmods, 'lrefs': lrefs, 'ncalls': ncalls}
+
+
+def _slug(s):
+    return re.sub(r'[^A-Za-z0-9_.]+', '-', s).strip('-')
+
+
+def scan_unsequenced(E, u):
+    """pairs of operand evaluations the standard leaves unordered whose order is observable. Yields (function, construct, node, message);
+    construct '+candidate' marks a function that has unordered operand groups with a call in them and no dependence (liveness)."""
+    for fname, fd in u.functions.items():
+        loc = _local_ids(fd)
+        cands = 0
+        hits = []
+        memo = {}
+
+        def eff(e):
+            if id(e) not in memo:
+                memo[id(e)] = _operand_effects(E, u, fname, e, loc)
+            return memo[id(e)]
+        for n in fd.walk():
+            if n.kind == 'BinaryOperator' and n.opcode not in _SEQUENCED_OPS and len(n.inner) == 2:
+                parts, what = list(n.inner), 'operands-of-%s' % _OPNAME.get(n.opcode, 'operator')
+            elif n.kind == 'CompoundAssignOperator' and len(n.inner) == 2:
+                parts, what = list(n.inner), 'operands-of-%s' % _OPNAME.get(n.opcode, 'compound-assignment')
+            elif n.kind == 'CallExpr' and len(n.inner) >= 3:
+                parts, what = list(n.inner), 'arguments-of-%s' % (n.callee() or 'call')
+            elif n.kind == 'ArraySubscriptExpr' and len(n.inner) == 2:
+                parts, what = list(n.inner), 'array-and-index'
+            else:
+                continue
+            effs = [eff(p) for p in parts]
+            if any(x['ncalls'] for x in effs):
+                cands += 1
+            for i in range(len(parts)):
+                for j in range(i + 1, len(parts)):
+                    a, b = effs[i], effs[j]
+                    if not a['ncalls'] and not b['ncalls'] and not a['mods'] and not b['mods'] and not a['lmods'] and not b['lmods']:
+                        continue
+                    # (1) both may act observably: which diagnostic ends the run / the order of the output depends on the evaluation order
+                    if a['act'] and b['act']:
+                        ca = sorted(set(a['act'].values())); cb = sorted(set(b['act'].values()))
+                        kinds = sorted(set(a['act']) | set(b['act']))
+                        label = 'both-may-diagnose' if ('exit' in a['act'] and 'exit' in b['act']) else 'both-act-observably'
+                        ka = 'exit' if 'exit' in a['act'] else sorted(a['act'])[0]
+                        kb = 'exit' if 'exit' in b['act'] else sorted(b['act'])[0]
+                        hits.append(('%s-%s(%s;%s)' % (what, label, ','.join(_slug(x) for x in ca), ','.join(_slug(x) for x in cb)), n,
+                                     '%s: the two %s `%s` and `%s` both contain a call that can %s (%s; %s), and C leaves their order open: the host compiler evaluates the left one first, '
+                                     'chibicc the right one, so on an input for which both act the reference build and the self-compiled compiler report a different diagnostic / produce another output order; '
+                                     'evaluate them into locals in source order'
+                                     % (fname, 'arguments' if what.startswith('arguments') else 'operands', parts[i].src()[:60], parts[j].src()[:60],
+                                        ' / '.join({'exit': 'end the run with a diagnostic', 'output': 'write output', 'input': 'consume input'}[k] for k in kinds),
+                                        E.why(a['act'][ka], ka) if a['act'][ka] in E.edges else a['act'][ka], E.why(b['act'][kb], kb) if b['act'][kb] in E.edges else b['act'][kb])))
+                    # (2) one writes a static object the other reads or writes
+                    shared = (set(a['mods']) & (set(b['mods']) | b['refs'])) | (set(b['mods']) & a['refs'])
+                    if '*' in a['mods'] and (b['mods'] or b['refs']) or '*' in b['mods'] and (a['mods'] or a['refs']):
+                        shared.add('*')
+                    for k in sorted(shared):
+                        w = a['mods'].get(k) or b['mods'].get(k)
+                        hits.append(('%s-share-static-%s' % (what, _slug(k) if k != '*' else 'any'), n,
+                                     '%s: of the two %s `%s` and `%s` one writes the static object %s (%s) that the other reads or writes, and C leaves their order open: '
+                                     'the host compiler evaluates the left one first, chibicc the right one, so the reference build and the self-compiled compiler compute different values'
+                                     % (fname, 'arguments' if what.startswith('arguments') else 'operands', parts[i].src()[:60], parts[j].src()[:60], k if k != '*' else '(any: call through a pointer)', w)))
+                    # (3) one writes a local (directly, or hands its address to a call it makes) that the other reads or writes
+                    ls = (set(a['lmods']) & (set(b['lmods']) | b['lrefs'])) | (set(b['lmods']) & a['lrefs'])
+                    for vid in sorted(ls):
+                        nm, how = a['lmods'].get(vid) or b['lmods'].get(vid)
+                        hits.append(('%s-share-local-%s' % (what, _slug(nm)), n,
+                                     '%s: of the two %s `%s` and `%s` one changes the local `%s` (%s) that the other reads or changes, and C leaves their order open: '
+                                     'the host compiler evaluates the left one first, chibicc the right one'
+                                     % (fname, 'arguments' if what.startswith('arguments') else 'operands', parts[i].src()[:60], parts[j].src()[:60], nm, how.replace('-', ' '))))
+        for (construct, node, msg) in hits:
+            yield (fname, construct, node, msg)
+        if cands and not hits:
+            yield (fname, '+candidate', fd, cands)
+
+
 # --------------------------------------------------------------------- canary ---
 # function in the canary -> (rule, scanner name, construct prefix that must be reported)
 CANARY_EXPECT = [
@@ -651,6 +966,100 @@ def r1213(P, rep, tier):
     reissue(rep, 'R12.14', sub, 'the self-compiled compiler would fold or relocate differently from the reference build: ')
 
 
+# the unordered-operand scanner needs whole-program summaries, so its canary is a program of its own (kept here: one translation unit)
+UNSEQ_CANARY = r"""
+void exit(int); int printf(const char *, ...);
+static void die(const char *m) { printf("%s", m); exit(1); }
+static int need(int x) { if (!x) die("bad"); return x; }
+static int next_id(void) { static int id; return id++; }
+static int step(int **p) { (*p)++; return 0; }
+static int twice(int x) { return 2 * x; }
+static int pair(int a, int b) { return a - b; }
+int bad_both_diagnose(int a, int b) { return need(a) * need(b); }
+int bad_args(int a, int b) { return pair(need(a), need(b)); }
+int bad_static(void) { return next_id() - next_id(); }
+int bad_local(int *p) { return step(&p) + *p; }
+int good_sequenced(int a, int b) { int l = need(a); int r = need(b); return l * r; }
+int good_pure(int a, int b) { return twice(a) + pair(twice(b), a); }
+int good_logical(int a, int b) { return (need(a) && need(b)) || (need(b), need(a)) ? need(a) : need(b); }
+int good_out_param(int *p) { int r = step(&p); return r + *p; }
+"""
+UNSEQ_EXPECT = [('bad_both_diagnose', 'operands-of-mul-both-may-diagnose(need;need)'), ('bad_args', 'arguments-of-pair-both-may-diagnose(need;need)'),
+                ('bad_static', 'operands-of-sub-share-static-'), ('bad_local', 'operands-of-add-share-local-p')]
+
+
+class _OneUnit:
+    def __init__(self, u):
+        self.unit_names = [u.name]
+        self._u = u
+
+    def unit(self, name):
+        return self._u
+
+
+def run_unseq_canary(P, rep):
+    src = os.path.join(P.dir, 'c12_unsequenced_canary.c')
+    j = src + '.json'
+    with open(src, 'w') as f:
+        f.write(UNSEQ_CANARY)
+    with open(j, 'w') as f:
+        p = subprocess.run(['clang-14', '-std=c11', '-w', '-fsyntax-only', '-Xclang', '-ast-dump=json', src], stdout=f, stderr=subprocess.PIPE, text=True)
+    if p.returncode != 0:
+        raise AnalysisBroken('clang failed on the R12.17 canary: ' + p.stderr[-300:])
+    cu = Unit(src, j, P.dir)
+    for x in (src, j):
+        try:
+            os.unlink(x)
+        except OSError:
+            pass
+    one = _OneUnit(cu)
+    got = [(f, c) for (f, c, n, m) in scan_unsequenced(Effects(one, L.CallGraph(one)), cu) if c != '+candidate']
+    for (fn, prefix) in UNSEQ_EXPECT:
+        if any(f == fn and c.startswith(prefix) for (f, c) in got):
+            rep.ob('R12.17', 'canary:%s:flagged-%s' % (fn, prefix.rstrip('-')), True, '')
+        else:
+            rep.undecided('R12.17', 'canary:%s:%s' % (fn, prefix.rstrip('-')), 'the unordered-operand scanner no longer flags the canary pattern in %s(): the rule is dead' % fn)
+    for (f, c) in got:
+        if f.startswith('good_'):
+            rep.undecided('R12.17', 'canary:%s:false-alarm-%s' % (f, c), 'the unordered-operand scanner flags the benign canary function %s (%s)' % (f, c))
+
+
+def r1216(P, rep, cg):
+    """whether the driver goes on to the next stage, and its exit status, are a function of the status of the stage it started - not of which other
+    children the process happens to own (a process keeps its children across exec), not of a status variable nobody wrote. C14's launcher rule, re-used."""
+    from ..report import Report, reissue
+    from . import c14
+    rep.rule('R12.16', 'the result depends only on input and options, not on process state: on every path of a launcher the status that decides success or failure is the status of the '
+                       'child that was started (own child reaped before return, no status of another child, no uninitialised status, no discarded status); same obligations as C14 R14.4', floor=4)
+    sub = Report('C14')
+    try:
+        u = P.unit('main.c')
+        c14.r143_r144(P, u, c14.Agg(sub, defined=lambda fn: fn in cg.defs), cg, cg.reach('main'), {})
+    except AnalysisBroken as e:
+        rep.undecided('R12.16', 'main.c:launcher:interpretation', str(e))
+        return
+    reissue(rep, 'R12.16', sub, 'the outcome of a compilation (exit status, whether the output file is produced) would depend on the state of the process, not only on input and options: ',
+            keep=lambda o: o['key'].startswith('R14.4:'))
+
+
+def r1217(P, rep, cg):
+    rep.rule('R12.17', 'chibicc\'s own sources do not depend on the order in which the operands of an operator or the arguments of a call are evaluated (unspecified in C; left-first in the host '
+                       'compiler, right-first in chibicc): no two such operands both contain a call that can end the run with a diagnostic, write output or consume input; none writes a static '
+                       'object or a local (directly or through its address handed to a call) that the other reads or writes', floor=100)
+    run_unseq_canary(P, rep)
+    E = Effects(P, cg)
+    for must in ('error_tok', 'error'):
+        if 'exit' not in E.act.get(must, ()):
+            rep.undecided('R12.17', 'anchor:%s' % must, 'the diagnostic function %s no longer reaches exit(): the effect summaries are not usable' % must)
+    for un in P.unit_names:
+        u = P.unit(un)
+        for (fname, construct, node, msg) in scan_unsequenced(E, u):
+            if construct == '+candidate':
+                rep.ob('R12.17', '%s:%s:unordered-operands-are-independent' % (u.name, fname), True, '', where='%s:%d' % (u.name, node.line))
+            else:
+                rep.ob('R12.17', '%s:%s:%s' % (u.name, fname, construct), False, msg, where='%s:%d' % (u.name, node.line))
+
+
 # ------------------------------------------------------------------------ run ---
 def run(P, rep, tier):
     rep.explanation = ('Determinism clause of C12 only: which functions may obtain a value that differs from run to run (time, pid, random, environment, '
@@ -660,7 +1069,10 @@ def run(P, rep, tier):
                        'a miscompilation of a construct chibicc\'s own sources use is covered by re-running the C01/C02 translation rules (R12.6).')
     rep.assumptions += ['libc functions outside the source table are deterministic functions of their arguments and of file contents',
                         'pointer comparisons and pointer differences are within one object (not checked)',
-                        'uninitialised memory is not read, except for local unions (R12.13)']
+                        'uninitialised memory is not read, except for local unions (R12.13)',
+                        'R12.17: two unordered operand evaluations interfere only through the end of the run (exit reachable, unreachable() excluded), output, input, '
+                        'static objects assigned by name (variable, member, element, or address taken) and locals named in the operands; writes to heap objects through pointers are not followed; '
+                        'a function whose address is taken counts as called by the function that takes it; a call through a pointer has every effect']
     rep.rule('R12.1', 'time / pid / random / environment / file-metadata / temp-name sources are called only by their allow-listed function, and the time value reaches only __DATE__/__TIME__ (and __TIMESTAMP__ through its one builtin)', floor=14)
     rep.rule('R12.2', 'no %p and no pointer for an integer conversion in any printf-like call; pointer->integer conversions only in the allow-listed test code', floor=10)
     rep.rule('R12.3', 'HashMap.buckets is touched only by functions of hashmap.c, none of which produces output', floor=6)
@@ -675,6 +1087,8 @@ def run(P, rep, tier):
     r1211(P, rep, tier)
     r1213(P, rep, tier)
     cg = L.CallGraph(P)
+    r1216(P, rep, cg)
+    r1217(P, rep, cg)
     units = [P.unit(n) for n in P.unit_names]
     # ---------------- R12.1
     allowed_seen = {}
